@@ -152,6 +152,17 @@ def run():
                         continue
                     others += same_tree(new.get(i), cfg.get(i))
                 results.append(check(f'resume_contract[{n}]: sets stopped = false and leaves every other configuration field as loaded', dom + [z3.And(*p.cond), z3.Not(z3.And(new.get(cf.index('stopped')).scalar() == 0, *others))], 'C10'))
+            # the totals: exactly the supplied values, every other State field as loaded
+            ss = [e for e in saves if e[1] == 'State']
+            results.append(dict(name=f'resume_contract[{n}]: saves the state exactly once', result='structural', ok=len(ss) == 1, prop='C10'))
+            if len(ss) == 1:
+                ns, st = ss[0][2], Obj('pre:State')
+                a3, a4, a5 = Obj('a3'), Obj('a4'), Obj('a5')
+                want = {sf.index('total_native_token'): a3, sf.index('total_liquid_stake_token'): a4, sf.index('total_reward_amount'): a5}
+                eqs = []
+                for i, fname in enumerate(sf):
+                    eqs += same_tree(ns.get(i), want[i] if i in want else st.get(i))
+                results.append(check(f'resume_contract[{n}]: staked, LST and reward totals saved are exactly the supplied values and every other State field is as loaded, for all arguments and states', dom + [z3.And(*p.cond), z3.Not(z3.And(*eqs))], 'C10'))
     except mirx.Unsupported as e:
         results.append(dict(name='resume_contract: MIR executor reaches the handler', result='inconclusive: ' + str(e), ok=False, inconclusive=True, prop='C10'))
     # ---- hook sender of receive_rewards ---------------------------------------------------------
